@@ -14,8 +14,8 @@ using namespace cm;
 using hz::Plan; using hz::Result; using hz::Violation;
 namespace be = amgcl::backend;
 
-enum Kern { K_TRANSPOSE, K_PRODUCT, K_SUM, K_SCALE_SORT, K_DIAGONAL, K_POINTWISE, K_COPY, K_GERSHGORIN, K_POWER, K_COMPLEX, NKERN };
-static const char *kern_names[] = { "transpose", "product", "sum", "scale_sort_rows", "diagonal", "pointwise_matrix", "crs_copy_convert", "gershgorin", "power_method", "complex_kernels" };
+enum Kern { K_TRANSPOSE, K_PRODUCT, K_SUM, K_SCALE_SORT, K_DIAGONAL, K_POINTWISE, K_COPY, K_GERSHGORIN, K_POWER, K_COMPLEX, K_BLOCK, NKERN };
+static const char *kern_names[] = { "transpose", "product", "sum", "scale_sort_rows", "diagonal", "pointwise_matrix", "crs_copy_convert", "gershgorin", "power_method", "complex_kernels", "block_valued_kernels" };
 
 typedef std::map<std::pair<long,long>, double> Entries;
 template <class V, class C, class P> static Entries entries(const be::crs<V,C,P> &M) { Entries e; for (size_t i = 0; i < M.nrows; ++i) for (P j = M.ptr[i]; j < M.ptr[i+1]; ++j) e[std::make_pair((long)i, (long)M.col[j])] += (double)M.val[j]; return e; }
@@ -182,6 +182,38 @@ Result execute(const Plan &p) {
             // A * A^H is Hermitian with real non-negative diagonal
             auto G = be::product(A, *T, true);
             for (size_t i = 0; i < G->nrows; ++i) for (ptrdiff_t j = G->ptr[i]; j < G->ptr[i+1]; ++j) if ((size_t)G->col[j] == i && (G->val[j].imag() != 0 || G->val[j].real() < 0)) { res.fail(sig("dense-definition", "complex-product", fmt("(A A^H)(%zu,%zu) = %g%+gi", i, i, G->val[j].real(), G->val[j].imag()))); i = G->nrows; break; }
+            break; }
+        case K_BLOCK: {
+            // 2x2 block values: transpose (adjoint blocks), product, scaled Gershgorin bound in block norms
+            typedef amgcl::static_matrix<double,2,2> B;
+            long nb = std::min<long>(std::max<long>(n, 1), 24);
+            gen::Csr S = gen::make_matrix((int)(ms % 4 == 0 ? gen::F_GRAPH : ms % 4 == 1 ? gen::F_NONSYM_PATTERN : ms % 4 == 2 ? gen::F_GRID1D : gen::F_CONVDIFF), nb, ms, 0, 1, 1); nb = S.n;
+            be::crs<B> A; A.set_size(nb, nb, false); for (long i = 0; i <= nb; ++i) A.ptr[i] = S.ptr[i]; A.set_nonzeros(S.nnz());
+            sim::rng r(ms, "blocks");
+            for (long i = 0; i < nb; ++i) for (ptrdiff_t j = S.ptr[i]; j < S.ptr[i+1]; ++j) { A.col[j] = S.col[j]; B b; for (int a = 0; a < 2; ++a) for (int c2 = 0; c2 < 2; ++c2) b(a, c2) = (double)r.range(-2, 2);
+                if (S.col[j] == i) { b(0, 0) = (double)r.range(6, 12); b(1, 1) = (double)r.range(1, 3) * (r.chance(0.3) ? 16.0 : 1.0) + 6; }   // dominant, sometimes badly scaled diagonal blocks
+                A.val[j] = b; }
+            // transpose: block (j,i) is the adjoint (transposed) block
+            auto T = be::transpose(A);
+            std::map<std::pair<long,long>, B> want; for (long i = 0; i < nb; ++i) for (ptrdiff_t j = A.ptr[i]; j < A.ptr[i+1]; ++j) want[std::make_pair((long)A.col[j], i)] = amgcl::math::adjoint(A.val[j]);
+            for (size_t i = 0; i < T->nrows; ++i) for (ptrdiff_t j = T->ptr[i]; j < T->ptr[i+1]; ++j) { auto wv = want.find(std::make_pair((long)i, (long)T->col[j])); bool ok = wv != want.end(); if (ok) for (int a = 0; a < 2; ++a) for (int c2 = 0; c2 < 2; ++c2) if (T->val[j](a, c2) != wv->second(a, c2)) ok = false; if (!ok) { res.fail(sig("dense-definition", "block-adjoint-transpose", fmt("block (%zu,%ld)", i, (long)T->col[j]))); i = T->nrows; break; } }
+            // product against the unblocked dense product
+            auto P2 = be::product(A, A, true);
+            Eigen::MatrixXd D = Eigen::MatrixXd::Zero(2 * nb, 2 * nb), Di = D;
+            for (long i = 0; i < nb; ++i) for (ptrdiff_t j = A.ptr[i]; j < A.ptr[i+1]; ++j) for (int a = 0; a < 2; ++a) for (int c2 = 0; c2 < 2; ++c2) D(2 * i + a, 2 * A.col[j] + c2) = A.val[j](a, c2);
+            Eigen::MatrixXd DD = D * D, G = Eigen::MatrixXd::Zero(2 * nb, 2 * nb);
+            for (size_t i = 0; i < P2->nrows; ++i) for (ptrdiff_t j = P2->ptr[i]; j < P2->ptr[i+1]; ++j) for (int a = 0; a < 2; ++a) for (int c2 = 0; c2 < 2; ++c2) G(2 * i + a, 2 * P2->col[j] + c2) += P2->val[j](a, c2);
+            if ((G - DD).cwiseAbs().maxCoeff() != 0) res.fail(sig("dense-definition", "block-product", "block product differs from the unblocked dense product"));
+            // scaled Gershgorin: max_i ||D_i^-1|| * sum_j ||A_ij||  (block norms) and an upper bound of rho(D^-1 A)
+            double g = be::spectral_radius<true>(A, 0), gu = be::spectral_radius<false>(A, 0), wantg = 0, wantu = 0;
+            for (long i = 0; i < nb; ++i) { double sum = 0; B dia = amgcl::math::identity<B>(); for (ptrdiff_t j = A.ptr[i]; j < A.ptr[i+1]; ++j) { sum += amgcl::math::norm(A.val[j]); if (A.col[j] == i) dia = A.val[j]; }
+                wantu = std::max(wantu, sum); wantg = std::max(wantg, sum * amgcl::math::norm(amgcl::math::inverse(dia)));
+                Eigen::Matrix2d d2; for (int a = 0; a < 2; ++a) for (int c2 = 0; c2 < 2; ++c2) d2(a, c2) = dia(a, c2); Di.block(2 * i, 2 * i, 2, 2) = d2.inverse(); }
+            if (!(std::fabs(g - wantg) <= 1e-12 * wantg)) res.fail(sig("dense-definition", "block-gershgorin-scaled-value", fmt("estimate %.17g, definition %.17g", g, wantg)));
+            if (!(std::fabs(gu - wantu) <= 1e-12 * wantu)) res.fail(sig("dense-definition", "block-gershgorin-value", fmt("estimate %.17g, definition %.17g", gu, wantu)));
+            double rho = (Di * D).eigenvalues().cwiseAbs().maxCoeff(), rhou = D.eigenvalues().cwiseAbs().maxCoeff();
+            if (!(g >= rho * (1 - 1e-10))) res.fail(sig("upper-bound", "block-gershgorin-scaled>=rho", fmt("estimate %.17g < spectral radius %.17g", g, rho)));
+            if (!(gu >= rhou * (1 - 1e-10))) res.fail(sig("upper-bound", "block-gershgorin>=rho", fmt("estimate %.17g < spectral radius %.17g", gu, rhou)));
             break; }
         }
         } catch (const std::exception &e) { res.fail(sig("no-exception", "kernel-threw", e.what())); }
